@@ -252,4 +252,25 @@ class MetricsPrograms(Part):
         return {"nontrivial": mixed > 0, "classes": ["family=metrics", "mode=metrics"]}
 
 
-PARTS = [Programs(), Shipped(), CoordBuilder(), MetricsPrograms()]
+class AffinePartitioned(Programs):
+    name = "affine-partitioned-programs"
+    rule = ("affine Einsums that are ALWAYS partitioned (1-2 levels of uniform_shape / nway_shape, follower or reverse follower, optional "
+            "occupancy level; index coefficients 1-4): the place where computed steps (ceil divisions, scaled steps, halos) are "
+            "substituted into larger expressions. Same comparison as the programs part.")
+
+    def budget(self, tier):
+        return {"quick": dict(examples=250, shards=3, seconds=60),
+                "thorough": dict(examples=3000, shards=8, seconds=400)}[tier]
+
+    def strategy(self, tier):
+        from hypothesis import strategies as st
+
+        @st.composite
+        def strat(draw):
+            c = draw(gen.case_affine(max_extent=3, allow_reverse=True, force_levels=draw(st.sampled_from([1, 1, 2]))))
+            c["family"], c["mode"] = "affine-partitioned", "plain"
+            return c
+        return strat()
+
+
+PARTS = [Programs(), Shipped(), CoordBuilder(), MetricsPrograms(), AffinePartitioned()]
